@@ -807,6 +807,256 @@ def check_c03(tier, seed, res):
                 "and unbind routes; real Mux registration methods and (*Mux).serve; expectation computed from the case text by check.py; distinct = distinct case text")
 
 
+# --------------------------------------------------------------------------
+# C19 / C20: test directory — reference evaluators over the case text
+
+def parse_dir_case(line):
+    t = TokS(line.split(" ")[2:])
+    udn = t.next(); gdn = t.next(); anon = t.next() == "1"
+    def entry():
+        dn = t.next()
+        return (dn, t.lst(lambda: (t.next(), t.hexlist())))
+    users = t.lst(entry); groups = t.lst(entry)
+    ops = []
+    for _ in range(t.int()):
+        k = t.next()
+        if k == "bind": ops.append((k, t.next(), t.next()))
+        elif k == "add": ops.append((k, t.next(), t.lst(lambda: (t.next(), t.hexlist()))))
+        elif k == "modify": ops.append((k, t.next(), t.lst(lambda: (t.int(), t.next(), t.hexlist()))))
+        elif k == "delete": ops.append((k, t.next()))
+        elif k == "search": ops.append((k, t.next(), t.next()))
+        elif k in ("setusers", "setgroups"): ops.append((k, t.lst(entry)))
+        elif k == "setanon": ops.append((k, t.next() == "1"))
+    return udn, gdn, anon, users, groups, ops
+
+
+def parse_dir_results(res):
+    t = TokS(res.split(" "))
+    out = []
+    for _ in range(t.int()):
+        assert t.next() == "R"
+        code = t.int()
+        es = t.lst(lambda: (t.next(), t.lst(lambda: (t.next(), t.hexlist()))))
+        out.append((code, es))
+    return out
+
+
+def ber_wrap_hex(vhex):
+    b = bytes.fromhex(vhex) if vhex != "-" else b""
+    n = len(b)
+    if n <= 127:
+        hdr = bytes([4, n])
+    else:
+        ds = n.to_bytes((n.bit_length() + 7) // 8, "big")
+        hdr = bytes([4, 0x80 | len(ds)]) + ds
+    return (hdr + b).hex()
+
+
+def value_ok(want, got):
+    return got == want or got == ber_wrap_hex(want)
+
+
+def c19_violations(line, results):
+    udn, gdn, anon, users, groups, ops = parse_dir_case(line)
+    bad = []
+    for j, (op, r) in enumerate(zip(ops, results)):
+        if op[0] == "setanon":
+            anon = op[1]
+        elif op[0] == "setusers":
+            users = op[1]
+        elif op[0] == "bind":
+            dn, pw = op[1], op[2]
+            ok = (pw == "-" and anon)
+            for (udn_, attrs) in users:
+                if udn_ == dn:
+                    pv = None
+                    for (n, vs) in attrs:
+                        if n == "password".encode().hex():
+                            pv = vs
+                            break
+                    if pv and pv[0] == pw:
+                        ok = True
+            want = 0 if ok else 49
+            if r[0] != want:
+                bad.append("op %d bind dn=%s pw=%s: got %d want %d" % (j, dn, pw, r[0], want))
+    return bad
+
+
+def c20_violations(line, results):
+    """Reference store of the property: DN -> attributes, users then groups."""
+    udn, gdn, anon, users0, groups0, ops = parse_dir_case(line)
+    users = [(dn, [[n, list(vs)] for n, vs in attrs]) for dn, attrs in users0]
+    groups = [dn for dn, _ in groups0]
+    bad = []
+    def find(dn):
+        for i, (d, _) in enumerate(users):
+            if d == dn:
+                return i
+        return -1
+    for j, (op, r) in enumerate(zip(ops, results)):
+        k = op[0]
+        if k == "setusers":
+            users = [(dn, [[n, list(vs)] for n, vs in attrs]) for dn, attrs in op[1]]
+        elif k == "setgroups":
+            groups = [dn for dn, _ in op[1]]
+        elif k == "add":
+            i = find(op[1])
+            if i >= 0:
+                if r[0] != 68:
+                    bad.append("op %d add of existing DN: got %d want 68" % (j, r[0]))
+            else:
+                if r[0] != 0:
+                    bad.append("op %d add: got %d want 0" % (j, r[0]))
+                m = {}
+                order = []
+                for n, vs in op[2]:
+                    if n not in m:
+                        order.append(n)
+                    m[n] = vs
+                users.append((op[1], [[n, list(m[n])] for n in sorted(order, key=lambda h: bytes.fromhex(h))]))
+        elif k == "delete":
+            i = find(op[1])
+            if i >= 0:
+                users.pop(i)
+                want = 0
+            elif op[1] in groups:
+                groups.remove(op[1])
+                want = 0
+            else:
+                want = 32
+            if r[0] != want:
+                bad.append("op %d delete: got %d want %d" % (j, r[0], want))
+        elif k == "modify":
+            i = find(op[1])
+            if i < 0:
+                if r[0] != 32:
+                    bad.append("op %d modify of missing entry: got %d want 32" % (j, r[0]))
+                continue
+            if r[0] != 0:
+                bad.append("op %d modify: got %d want 0" % (j, r[0]))
+            attrs = users[i][1]
+            for (cop, ty, vals) in op[2]:
+                idx = -1
+                for q, a in enumerate(attrs):
+                    if a[0] == ty:
+                        idx = q
+                if cop == 0:
+                    if idx >= 0:
+                        attrs[idx][1].extend(vals)
+                    else:
+                        attrs.append([ty, list(vals)])
+                elif cop == 1:
+                    if idx >= 0:
+                        attrs.pop(idx)
+                elif cop == 2:
+                    if idx >= 0:
+                        attrs[idx] = [ty, list(vals)]
+        elif k == "search":
+            base = op[1]
+            i = find(base)
+            if i >= 0 and op[2] == "(objectClass=*)".encode().hex():
+                want = users[i]
+                if r[0] != 0 or len(r[1]) != 1:
+                    bad.append("op %d search of existing entry %s: code %d, %d entries" % (j, base, r[0], len(r[1])))
+                    continue
+                got = r[1][0]
+                ok = got[0] == want[0] and len(got[1]) == len(want[1])
+                if ok:
+                    for (gn, gv), (wn, wv) in zip(got[1], want[1]):
+                        if gn != wn or len(gv) != len(wv) or not all(value_ok(w, g) for w, g in zip(wv, gv)):
+                            ok = False
+                if not ok:
+                    bad.append("op %d search %s: entry differs from the reference store: got %r want %r" % (j, base, got, want))
+            elif i < 0 and base.endswith(udn) and base != udn and base not in groups:
+                if r[0] != 32 or r[1]:
+                    bad.append("op %d search of missing entry %s: code %d, %d entries" % (j, base, r[0], len(r[1])))
+            elif bytes.fromhex(base).lower() == bytes.fromhex(udn).lower():
+                # users base with (cn=X) or (|(cn=X)(cn=Y)): the user entries with those names, in store order
+                import re as _re
+                names = _re.findall(rb"\(cn=([A-Za-z0-9]+)\)", bytes.fromhex(op[2]))
+                if names:
+                    want = [u for u in users if any(bytes.fromhex(u[0]).startswith(b"cn=" + nm + b",") for nm in names)]
+                    if not want:
+                        if r[0] != 32 or r[1]:
+                            bad.append("op %d search users base: nothing stored matches, got code %d, %d entries" % (j, r[0], len(r[1])))
+                        continue
+                    ok = r[0] == 0 and len(r[1]) == len(want)
+                    if ok:
+                        for got, w in zip(r[1], want):
+                            if got[0] != w[0] or len(got[1]) != len(w[1]):
+                                ok = False; break
+                            for (gn, gv), (wn, wv) in zip(got[1], w[1]):
+                                if gn != wn or len(gv) != len(wv) or not all(value_ok(x, y) for x, y in zip(wv, gv)):
+                                    ok = False
+                    if not ok:
+                        bad.append("op %d search users base %s: result differs from the reference store: got %r want %r" % (j, op[2], r, want))
+    return bad
+
+
+def metachar_dn(line):
+    try:
+        _, _, _, _, _, ops = parse_dir_case(line)
+    except Exception:
+        return False
+    for o in ops:
+        if o[0] == "add":
+            dn = bytes.fromhex(o[1]) if o[1] != "-" else b""
+            if any(c in dn for c in b"()*|") or dn != dn.strip():
+                return True
+    return False
+
+
+def dir_check(pid, gen, n, tier, seed, res, spec):
+    cases = gen_cases(gen, seed, n, tier)
+    if pid == "C20":
+        cases += gen_cases("c20k3", seed, 0, tier).replace("dir ", "dir k")
+    model, impl = differential(cases, wd(pid), "main")
+    opcount = {}
+    for k, line in case_map(cases).items():
+        res.evaluations += 1
+        i = impl.get(k); m = model.get(k)
+        if i is None or m is None or i.startswith("HARNESS") or m.startswith("DRIVER"):
+            res.mismatch(line, str(i), str(m)); continue
+        res.nontrivial.add(line.split(" ", 2)[2])
+        res.traces += 1
+        try:
+            results = parse_dir_results(i)
+            _, _, _, _, _, ops = parse_dir_case(line)
+            for o in ops:
+                opcount[o[0]] = opcount.get(o[0], 0) + 1
+            bad = spec(line, results)
+        except Exception as e:  # noqa
+            res.mismatch(line, i, "unparseable result: %r" % (e,)); continue
+        if bad:
+            key = "directory:" + bad[0].split(" ")[2].rstrip(":")
+            if metachar_dn(line):
+                key = "dn=filter-metacharacter"
+            res.violation(key, line, i, m, "; ".join(bad[:3])); continue
+        if i != m:
+            res.mismatch(line, i, m)
+        elif res.evaluations % 17 == 1:
+            res.sample(line[:260] + "  =>  " + i[:160])
+    res.extra["operations"] = opcount
+
+
+@check("C19")
+def check_c19(tier, seed, res):
+    dir_check("C19", "c19", 40 if tier == "quick" else 1500, tier, seed, res, c19_violations)
+    res.rule = ("user sets of 0..4 entries over a 5-DN x 4-password alphabet (prefix DNs, differently-cased DNs, duplicate DNs, no / empty / two-valued / "
+                "repeated / mis-cased password attributes), AllowAnonymousBind both ways and toggled, then every bind of 7 DNs x 4 passwords, issued by a real "
+                "go-ldap client (UnauthenticatedBind for empty passwords) against a real testdirectory.Directory on TCP; each result compared with the "
+                "property's iff computed from the case text and with the model; one evaluation = one history (28..36 binds)")
+
+
+@check("C20")
+def check_c20(tier, seed, res):
+    dir_check("C20", "c20", 60 if tier == "quick" else 3000, tier, seed, res, c20_violations)
+    res.rule = ("histories of 5..24 (thorough 5..40) operations (Add with sorted/duplicate attribute types, Modify add/delete/replace/increment with 0..3 values, "
+                "Delete of users and groups, Search by entry DN / users base / groups base / member filter / case-folded base, SetUsers, binds) over a pool of 6 "
+                "users and 3 groups whose DNs are not substrings of one another, issued one at a time by a real go-ldap client against a real directory; after "
+                "every step the result is compared with a reference store computed from the case text (check.py) and with the model")
+
+
 def renumber(text):
     out = []
     for j, l in enumerate(text.splitlines()):
